@@ -55,6 +55,11 @@ def unit():
     m.ghost_exit("self.ends = interval_ends")
     m.ghost_exit("self.rank = lam(i, g_pinv(i))")
     nn = "len(self._interval_starts)"
+    # facts about the sorted ends first (they need the sorted() contract only; fewer hypotheses in their queries)
+    m.hint_exit("forall(t, 0, %s, 0 <= g_perm(t) and g_perm(t) < %s and g_pinv(g_perm(t)) == t and self._sortedEndsIndices[t] == g_perm(t)"
+                " and self._sortedEnds[t] == interval_ends[g_perm(t)])" % (nn, nn), "sorted-position-t-holds-interval-perm(t)")
+    m.hint_exit("forall(i, 0, %s, 0 <= g_pinv(i) and g_pinv(i) < %s and g_perm(g_pinv(i)) == i)" % (nn, nn), "every-interval-has-a-sorted-position")
+    m.hint_exit("forall(p, 0, %s, forall(q, p, %s, self._sortedEnds[p] <= self._sortedEnds[q]))" % (nn, nn), "sorted-ends-ascending")
     m.hint_exit("len(span_set.starts) == %s and span_set.in_n == %s" % (nn, nn), "nothing-was-dropped-by-the-disjointness-check")
     m.hint_exit("forall(i, 0, %s, span_set.kept[i])" % nn, "every-interval-kept")
     m.hint_exit("forall(i, 0, %s, span_set.in_s[i] == self._interval_starts[i] and span_set.in_e[i] == interval_ends[i])" % nn, "check-input=the-intervals")
@@ -69,10 +74,6 @@ def unit():
                 " and self._interval_starts[g_kidx(k1)] == k1[0] and self.ends[g_kidx(k1)] == k1[1]))", "where-each-interval-is-stored")
     m.hint_exit("forall(k1, forall(k2, implies((k1 in mapping) and (k2 in mapping) and k1 != k2, g_kidx(k1) != g_kidx(k2))))",
                 "different-intervals-different-positions")
-    m.hint_exit("forall(t, 0, %s, 0 <= g_perm(t) and g_perm(t) < %s and g_pinv(g_perm(t)) == t and self._sortedEndsIndices[t] == g_perm(t)"
-                " and self._sortedEnds[t] == interval_ends[g_perm(t)])" % (nn, nn), "sorted-position-t-holds-interval-perm(t)")
-    m.hint_exit("forall(i, 0, %s, 0 <= g_pinv(i) and g_pinv(i) < %s and g_perm(g_pinv(i)) == i)" % (nn, nn), "every-interval-has-a-sorted-position")
-    m.hint_exit("forall(p, 0, %s, forall(q, p, %s, self._sortedEnds[p] <= self._sortedEnds[q]))" % (nn, nn), "sorted-ends-ascending")
     m.hint_exit("forall(k1, implies(k1 in mapping, k1[0] <= k1[1]))", "every-key-interval-valid")
     m.hint_exit("forall(k1, forall(k2, implies((k1 in mapping) and (k2 in mapping) and k1 != k2, k1[1] < k2[0] or k2[1] < k1[0])))",
                 "no-two-key-intervals-share-a-point")
